@@ -48,8 +48,12 @@ def run(F, R, tier):
                     num += 1
                     continue
                 ok = a["origins"] and all(o[0] == "call" and q.ends(o[1], "helpers::xml_escape") for o in a["origins"])
+                # a literal of the program that contains no markup character needs no escaping (attribute names of a param helper)
+                lit = a["origins"] and all(o[0] == "const" and isinstance(o[2], str) and not (set(o[2]) & set("&<>\"'")) for o in a["origins"])
                 if ok:
                     esc += 1
+                elif lit:
+                    num += 1
                 else:
                     bad.append((B.line(bi), ty, sorted(map(str, a["origins"]))))
         R.check(not bad, "C18.R1", "C18.R1:%s:all-strings-escaped" % tx["id"], "%s:%s" % (tx["file"], tx["line"]),
